@@ -8,8 +8,10 @@ remaining input, accepted by Lean's termination checker with the decrease proofs
 (Model/Parser.lean) — that is the "never hangs" statement for the inner loops. For the outer chain loop the decrease is
 the theorem `parseChains_never_hangs` below.
 
-Not covered by a Lean theorem: the deferred-validation clause (mass / comp of unresolvable modification values) —
-`mod_mass` / `mod_comp` are not modelled here; that clause rests on the oracle of harness/props/c09.py.
+The deferred-validation clause (mass / comp of unresolvable modification values): `mod_mass` / `mod_comp` are not
+modelled here; Props/C09Ext.lean proves the dispatch part for the fast path of `mass` (which fields reach the resolver, an
+unresolvable reached field always raises) with the resolver as a parameter; the rest of that clause rests on the oracle of
+harness/props/c09.py.
 -/
 namespace Pept
 
